@@ -15,6 +15,17 @@
 //!             or returned (default 0 = no monitor)
 //!     gens=G  the K workers are spawned in G successive generations, each joined before the next
 //!             starts (thread ids g*K + t): thread churn, TLS/address reuse across threads
+//!     spawn=M how the caller threads are created: 0 anonymous `thread::spawn` from main (default);
+//!             1 `Builder` with the SAME name for every worker (what thread pools do) and a stack size;
+//!             2 `Builder` names `worker-<t>`, reused by every generation (a respawned pool worker);
+//!             3 anonymous scoped threads (`thread::scope`); 4 workers spawned by a launcher thread, not
+//!             by main; 5 scoped threads that all carry the same name
+//!     fault=F injected caller-side faults (bit mask).  1: between draws a worker makes an ILLEGAL call of
+//!             another volute function (index out of range, size mismatch: documented to panic) and
+//!             catches the unwind, then keeps drawing.  2: every generation has an extra victim thread
+//!             (ids 2000+g) that makes a few draws next to the workers, then makes an illegal call,
+//!             does NOT catch it and dies (its own draws are discarded; an `F <tid>` line records the
+//!             death).  random() on the surviving threads must not care.
 //!
 //! mode `seq` (default): every thread walks the size list in its own permutation and performs D
 //!   draws per size (and per type) back to back.
@@ -29,6 +40,8 @@
 //!   B <thread> <round> <call-id> <digest hex>           (applicability monitor)
 //!   J <thread>                                          (join error: thread died)
 //!   HANG <simulated seconds without progress> <events so far> <thread:type:n of the calls in flight>   (then exit 3)
+//!   F <thread>                                          (fault mode 2: the victim thread died, as intended)
+//!   Q <illegal calls injected and caught> <of which unwound>
 //!   T <virtual elapsed ns>
 //!   E                                                   (end marker)
 use std::io::Write;
@@ -56,7 +69,11 @@ fn stamp() -> u64 {
 /// 1 + (thread << 16 | type << 8 | n) of a call in flight (Relaxed RMWs only, like SEQ).
 static INFLIGHT: [AtomicU64; 32] = [const { AtomicU64::new(0) }; 32];
 static DONE: AtomicBool = AtomicBool::new(false);
+/// injected illegal calls made / of which unwound (evidence only; Relaxed RMWs like SEQ)
+static FAULTS: [AtomicU64; 2] = [const { AtomicU64::new(0) }; 2];
 thread_local! { static MY_TID: std::cell::Cell<u64> = const { std::cell::Cell::new(0) }; }
+// set while a thread is making an injected illegal call: the panic hook then stays silent
+thread_local! { static FAULT_DEPTH: std::cell::Cell<u32> = const { std::cell::Cell::new(0) }; }
 
 fn monitor(limit_s: u64) {
     let mut last = SEQ.fetch_add(0, Ordering::Relaxed);
@@ -146,6 +163,8 @@ struct Cfg {
     warm: bool,
     gens: usize,
     hang: u64,
+    spawn: u8,
+    fault: u8,
 }
 
 fn splitmix(x: &mut u64) -> u64 {
@@ -249,6 +268,51 @@ fn neighbour_op(cfg: &Cfg, st: &mut u64, r: &Rec, out: &mut Vec<Ev>) {
     }
 }
 
+/// Caller-side fault: an illegal call of another volute function (documented to panic), caught here.
+/// On average one per eight draws; which one is a pure function of argv.
+fn caught_fault(cfg: &Cfg, st: &mut u64, r: &Rec) {
+    if cfg.fault & 1 == 0 {
+        return;
+    }
+    let s = splitmix(st);
+    if (s >> 61) != 0 {
+        return;
+    }
+    let (n, blocks) = (r.n as usize, r.blocks.clone());
+    FAULT_DEPTH.with(|d| d.set(1));
+    let r = std::panic::catch_unwind(move || ops::illegal(s, n, &blocks));
+    FAULT_DEPTH.with(|d| d.set(0));
+    FAULTS[0].fetch_add(1, Ordering::Relaxed);
+    if r.is_err() {
+        FAULTS[1].fetch_add(1, Ordering::Relaxed);
+    }
+}
+
+/// The victim thread of fault mode 2: a few draws, then an illegal call that unwinds out of the thread.
+fn victim(g: usize, cfg: &Cfg) {
+    MY_TID.with(|x| x.set(2000 + g as u64));
+    let mut st = cfg.order ^ ((g as u64 + 77).wrapping_mul(0xD1B54A32D192ED03));
+    let calls: Vec<(u8, usize)> = if !cfg.cycle.is_empty() {
+        cfg.cycle.clone()
+    } else {
+        cfg.sizes.iter().map(|&n| (if cfg.lut { b'L' } else { b'S' }, n)).collect()
+    };
+    let nd = 1 + (splitmix(&mut st) % 5) as usize;
+    let mut last = None;
+    for i in 0..nd {
+        let (typ, n) = calls[i % calls.len()];
+        last = Some(one_draw(typ, n, 2000, i as u32));
+        if cfg.yld {
+            thread::yield_now();
+        }
+    }
+    let r = last.unwrap();
+    FAULT_DEPTH.with(|d| d.set(1));
+    ops::illegal(splitmix(&mut st), r.n as usize, &r.blocks);
+    // an illegal call that returned (it must not: C17) is not C19's business; die anyway
+    panic!("harness: victim thread ends here");
+}
+
 fn worker(t: usize, cfg: &Cfg) -> Vec<Ev> {
     MY_TID.with(|x| x.set(t as u64));
     // per-thread permutation of the size list: a pure function of argv
@@ -260,6 +324,7 @@ fn worker(t: usize, cfg: &Cfg) -> Vec<Ev> {
     }
     let mut out = Vec::with_capacity(2 * cfg.d * (sizes.len() + cfg.cycle.len()) + 64);
     let mut ost = cfg.ops ^ ((t as u64 + 7).wrapping_mul(0xA24BAED4963EE407));
+    let mut fst = cfg.order ^ ((t as u64 + 13).wrapping_mul(0x9FB21C651E98DF25));
     let mut round = 0u32;
     if !cfg.cycle.is_empty() {
         let p = cfg.cycle.len();
@@ -270,6 +335,7 @@ fn worker(t: usize, cfg: &Cfg) -> Vec<Ev> {
                 let (typ, n) = cfg.cycle[slot];
                 let r = one_draw(typ, n, slot as u32, rep as u32);
                 neighbour_op(cfg, &mut ost, &r, &mut out);
+                caught_fault(cfg, &mut fst, &r);
                 out.push(Ev::Draw(r));
             }
             if cfg.yld {
@@ -287,11 +353,13 @@ fn worker(t: usize, cfg: &Cfg) -> Vec<Ev> {
             if cfg.lut {
                 let r = one_draw(b'L', n, 2 * pos, d as u32);
                 neighbour_op(cfg, &mut ost, &r, &mut out);
+                caught_fault(cfg, &mut fst, &r);
                 out.push(Ev::Draw(r));
             }
             if cfg.stat {
                 let r = one_draw(b'S', n, 2 * pos + 1, d as u32);
                 neighbour_op(cfg, &mut ost, &r, &mut out);
+                caught_fault(cfg, &mut fst, &r);
                 out.push(Ev::Draw(r));
             }
             if cfg.yld {
@@ -388,10 +456,95 @@ fn usage() -> ! {
     std::process::exit(64);
 }
 
+type Joined = Vec<(usize, Option<Vec<Ev>>)>;
+
+fn builder(cfg: &Cfg, t: usize) -> thread::Builder {
+    match cfg.spawn {
+        1 | 5 => thread::Builder::new().name("pool-worker".to_string()).stack_size(256 * 1024),
+        2 => {
+            let mut name = b"worker-".to_vec();
+            put_dec(&mut name, t as u64);
+            thread::Builder::new().name(String::from_utf8(name).unwrap())
+        }
+        _ => thread::Builder::new(),
+    }
+}
+
+/// One generation: spawn the K workers (and the victim of fault mode 2) the way `spawn=` says, let the
+/// main thread take part if asked, join everything.
+fn generation(cfg: &Cfg, g: usize, main_tid: usize, with_main: bool) -> (Joined, Option<Vec<Ev>>, bool) {
+    let has_victim = cfg.fault & 2 != 0;
+    match cfg.spawn {
+        3 | 5 => thread::scope(|s| {
+            let mut handles = Vec::with_capacity(cfg.k);
+            for t in 0..cfg.k {
+                let tid = g * cfg.k + t;
+                handles.push((tid, builder(cfg, t).spawn_scoped(s, move || worker(tid, cfg)).expect("harness: spawn")));
+            }
+            let v = if has_victim { Some(s.spawn(move || victim(g, cfg))) } else { None };
+            let ml = if with_main { Some(worker(main_tid, cfg)) } else { None };
+            let joined = handles.into_iter().map(|(tid, h)| (tid, h.join().ok())).collect();
+            (joined, ml, v.map(|h| h.join().is_err()).unwrap_or(false))
+        }),
+        4 => {
+            // the workers' parent is a launcher thread, not main
+            let c = cfg.clone();
+            let launcher = thread::Builder::new().name("launcher".to_string()).spawn(move || {
+                let mut handles = Vec::with_capacity(c.k);
+                for t in 0..c.k {
+                    let cc = c.clone();
+                    let tid = g * c.k + t;
+                    handles.push((tid, thread::spawn(move || worker(tid, &cc))));
+                }
+                let v = if c.fault & 2 != 0 {
+                    let cc = c.clone();
+                    Some(thread::spawn(move || victim(g, &cc)))
+                } else {
+                    None
+                };
+                let joined: Joined = handles.into_iter().map(|(tid, h)| (tid, h.join().ok())).collect();
+                (joined, v.map(|h| h.join().is_err()).unwrap_or(false))
+            });
+            let ml = if with_main { Some(worker(main_tid, cfg)) } else { None };
+            let (joined, vd) = launcher.expect("harness: spawn").join().expect("harness: launcher died");
+            (joined, ml, vd)
+        }
+        _ => {
+            let mut handles = Vec::with_capacity(cfg.k);
+            for t in 0..cfg.k {
+                let c = cfg.clone();
+                let tid = g * cfg.k + t;
+                handles.push((tid, builder(cfg, t).spawn(move || worker(tid, &c)).expect("harness: spawn")));
+            }
+            let v = if has_victim {
+                let c = cfg.clone();
+                Some(thread::spawn(move || victim(g, &c)))
+            } else {
+                None
+            };
+            let ml = if with_main { Some(worker(main_tid, cfg)) } else { None };
+            let joined = handles.into_iter().map(|(tid, h)| (tid, h.join().ok())).collect();
+            (joined, ml, v.map(|h| h.join().is_err()).unwrap_or(false))
+        }
+    }
+}
+
 fn main() {
     let a: Vec<String> = std::env::args().collect();
     if a.len() == 2 && a[1] == "--build-only" {
         println!("c19_sim built");
+        return;
+    }
+    if a.len() == 2 && a[1] == "--illegal-check" {
+        // which of the injected illegal calls unwind (all of them should: property C17)
+        std::panic::set_hook(Box::new(|_| {}));
+        for n in [0usize, 3, 6, 7] {
+            for sel in 0..13u64 {
+                let blocks = vec![0u64; if n <= 6 { 1 } else { 1 << (n - 6) }];
+                let r = std::panic::catch_unwind(move || ops::illegal(sel, n, &blocks));
+                println!("illegal n={} sel={} {}", n, sel, if r.is_err() { "unwound" } else { "RETURNED" });
+            }
+        }
         return;
     }
     if a.len() < 8 {
@@ -420,6 +573,8 @@ fn main() {
         warm: a.iter().any(|x| x == "warm=1"),
         hang: a.iter().find_map(|x| x.strip_prefix("hang=")).map(|x| p(x)).unwrap_or(0),
         gens: a.iter().find_map(|x| x.strip_prefix("gens=")).map(|x| p(x) as usize).unwrap_or(1).max(1),
+        spawn: a.iter().find_map(|x| x.strip_prefix("spawn=")).map(|x| p(x) as u8).unwrap_or(0),
+        fault: a.iter().find_map(|x| x.strip_prefix("fault=")).map(|x| p(x) as u8).unwrap_or(0),
         lut: a[4] == "lut" || a[4] == "both",
         stat: a[4] == "static" || a[4] == "both",
         order: p(&a[5]),
@@ -434,7 +589,7 @@ fn main() {
     // a panicking draw is recorded in the log as W_PANIC.
     std::panic::set_hook(Box::new(|info| {
         let mut e = std::io::stderr();
-        let _ = e.write_all(b"PANIC-IN-DRAW: ");
+        let _ = e.write_all(if FAULT_DEPTH.with(|d| d.get()) != 0 { b"PANIC (injected fault): " } else { b"PANIC: " });
         if let Some(l) = info.location() {
             let _ = e.write_all(l.file().as_bytes());
             let _ = e.write_all(b":");
@@ -485,24 +640,25 @@ fn main() {
     let main_tid = cfg.gens * cfg.k;
     let mut main_log = None;
     for g in 0..cfg.gens {
-        let mut handles = Vec::with_capacity(cfg.k);
-        for t in 0..cfg.k {
-            let c = cfg.clone();
-            let tid = g * cfg.k + t;
-            handles.push((tid, thread::spawn(move || worker(tid, &c))));
+        let with_main = g == 0 && cfg.main_draws;
+        let (joined, ml, victim_died) = generation(&cfg, g, main_tid, with_main);
+        if with_main {
+            main_log = ml;
         }
-        if g == 0 && cfg.main_draws {
-            main_log = Some(worker(main_tid, &cfg));
-        }
-        for (tid, h) in handles.into_iter() {
-            match h.join() {
-                Ok(evs) => encode(&mut buf, tid, &evs),
-                Err(_) => {
+        for (tid, r) in joined {
+            match r {
+                Some(evs) => encode(&mut buf, tid, &evs),
+                None => {
                     buf.extend_from_slice(b"J ");
                     put_dec(&mut buf, tid as u64);
                     buf.push(b'\n');
                 }
             }
+        }
+        if victim_died {
+            buf.extend_from_slice(b"F ");
+            put_dec(&mut buf, 2000 + g as u64);
+            buf.push(b'\n');
         }
     }
     if let Some(evs) = main_log {
@@ -512,6 +668,13 @@ fn main() {
         DONE.store(true, Ordering::Relaxed);
         m.thread().unpark();
         let _ = m.join();
+    }
+    if cfg.fault != 0 {
+        buf.extend_from_slice(b"Q ");
+        put_dec(&mut buf, FAULTS[0].fetch_add(0, Ordering::Relaxed));
+        buf.push(b' ');
+        put_dec(&mut buf, FAULTS[1].fetch_add(0, Ordering::Relaxed));
+        buf.push(b'\n');
     }
     let el = t0.elapsed().as_nanos() as u64;
     buf.extend_from_slice(b"T ");
